@@ -95,6 +95,13 @@ func (c clientCodec) Decode(response []byte, context *ClientContext) (result []i
 			count := 1
 			if tag == io.TagList {
 				count = decoder.ReadInt()
+				if count < 0 {
+					// a negative count from the wire: malformed, and it must not index the results
+					count = 0
+					if decoder.Error == nil {
+						decoder.Error = io.DecodeError("hprose/rpc/core: negative result count")
+					}
+				}
 				decoder.AddReference(nil)
 				for i := 0; i < n && i < count; i++ {
 					results[i] = decoder.Read(returnType[i])
